@@ -3,7 +3,10 @@ import FordModel.Reader
 import FordModel.Admonition
 import FordModel.Meta
 import FordModel.Attach
+import FordModel.AttachIface
 import FordModel.MdState
+import FordModel.DocConvert
+import FordModel.Basic.Split
 import FordModel.Dispatch.C02
 namespace Ford
 open Proto
@@ -34,6 +37,20 @@ def mdDocs : List Str → List (List Str) → List (List Str)
 def mdOutFields (o : MdOut) : List Str :=
   "E".toList :: (o.links.map (fun l => "H:".toList ++ l) ++ o.foots.map (fun l => "F:".toList ++ l)
     ++ o.titles.map (fun l => "A:".toList ++ l))
+
+/-- request field of `c03.convert`: the optional attributes (comma separated, `-` = none) one
+    registered entity has after parsing; the extra word `inh` marks a public component of a type
+    that another type of the project extends (`FortranType.correlate` lists it in the extending
+    type as well).  Every entity gets a non-empty dummy metadata so that a reset is visible. -/
+def centOfField (fix : Bool) (f : Str) : CEnt :=
+  let as := if f == ['-'] then [] else parenSplit ',' f
+  let e : CEnt := { attrs := as.filter (fun a => a != ['d', 'o', 'c'] && a != ['i', 'n', 'h']), docList := [],
+                    doc := if as.contains ['d', 'o', 'c'] then some [] else none, md := [(['m'], [])] }
+  if as.contains ['i', 'n', 'h'] then inheritStep fix [['p']] e else e
+
+def idxWhere (p : CEnt → Bool) : Nat → List CEnt → List Nat
+  | _, [] => []
+  | i, e :: es => if p e then i :: idxWhere p (i + 1) es else idxWhere p (i + 1) es
 
 def dispatchC03 : List Str → Option (List Str)
   | cmd :: args =>
@@ -66,13 +83,22 @@ def dispatchC03 : List Str → Option (List Str)
         match readAll { doc := d, pre := p, alt := a, preAlt := pa } lines with
         | .ok items =>
           some ("ok".toList ::
-            (entDocs (v.contains 'o') Gen.entityFields (v.contains 'm') (attach d items)).flatMap
+            (entDocsW (v.contains 'w') (v.contains 'o') Gen.entityFields (v.contains 'm') (attachW d items)).flatMap
               (fun e => ("E:".toList ++ e.1) :: (metaOut e.2.1 ++ linesOut e.2.2)))
         | .error e => some ["err".toList, rerrName e]
       | _ => some ["bad-request".toList]
     else if cmd == "c03.mdstate".toList then
       match args with
       | v :: fs => some ("ok".toList :: (markdownAll (v.contains 'a') mdEmpty (mdDocs fs [])).flatMap mdOutFields)
+      | _ => some ["bad-request".toList]
+    else if cmd == "c03.convert".toList then
+      match args with
+      | v :: fs =>
+        let reg := fs.map (centOfField (v.contains 'i'))
+        let out := convertAll Gen.markdownSkipAttrs id reg
+        some ("ok".toList :: (convIdx Gen.markdownSkipAttrs reg).map showNat
+              ++ ["P".toList] ++ (idxWhere (fun e => e.doc.isSome) 0 reg).map showNat
+              ++ ["R".toList] ++ (idxWhere (fun e => e.md.isEmpty) 0 out).map showNat)
       | _ => some ["bad-request".toList]
     else if cmd == "c03.classify".toList then
       match args with
